@@ -2,7 +2,7 @@
 from __future__ import annotations
 
 import itertools
-from datetime import timedelta
+from datetime import timedelta, timezone
 
 from hypothesis import strategies as st
 
@@ -13,19 +13,23 @@ PROPERTY_ID = "C30"
 LEVEL = "exploration"
 RULE = (
     "A program is a list of operation lists (one per thread); operations: ['s', on, kind, d, body] = call schedule / "
-    "schedule_relative(d ms as float | timedelta) / schedule_absolute(EPOCH + d ms) on scheduler `on` ('c' = one "
+    "schedule_relative(d ms as float | timedelta) / schedule_absolute(EPOCH + d ms as an aware datetime, UTC or -05:30) on scheduler `on` ('c' = one "
     "CurrentThreadScheduler() instance used by every thread, 'g' = CurrentThreadScheduler.singleton() of the calling thread, "
     "'t' = one TrampolineScheduler() instance shared by all threads) with an action that logs start, executes `body` "
     "(more operations: nested schedules, cancels, work) and logs end; ['x', ref] = dispose the disposable returned for "
-    "schedule operation number ref (if that call has returned); ['w', ms] = let ms of fake time pass. Times are the "
+    "schedule operation number ref (if that call has returned); ['w', ms] = let ms of fake time pass; single-thread programs "
+    "only: kind 'ens' = ensure_trampoline(action), ['q', on] = record schedule_required(), ['r'] = raise inside the action. "
+    "Times are the "
     "Engine-DET fake clock (vlib/det.py); a timed wait of the trampoline advances it. "
     "tree-enum / tree: ONE thread, run in the calling thread (DET free mode): every ordered forest with <=3 (quick) / <=4 "
     "(thorough) schedule nodes over a small label alphabet with at most one cancel at any position, on each scheduler kind "
     "(exhaustive), plus generated trees (depth <=3, mixed scheduler kinds, work, past absolute times). "
     "det-enum / det-gen: TWO threads under Engine DET (line-level yield points in reactivex code, cooperative locks): every "
     "schedule with <=1 (quick) / <=2 (thorough) preemptions of a fixed list of small programs (shared trampoline from both "
-    "threads, per-thread current-thread trampolines, timed entries, cross-thread cancels, mixed), plus generated programs "
-    "with <=3 drawn preemption points. "
+    "threads, per-thread current-thread trampolines, timed entries, cross-thread cancels, mixed; three 3-thread programs; "
+    "four more two-thread programs in thorough), plus generated programs (a third thread in ~20%) with <=3 drawn preemption "
+    "points. A second enumerated single-thread family puts ensure_trampoline labels and a raise / schedule_required() at every "
+    "position of every forest. "
     "Oracle over the event log (call/ret of every schedule call, start/end of every action, cancel issue/return, each with "
     "thread id and fake clock), per trampoline (= per calling thread for 'c'/'g', the instance for 't'): (1) an action never "
     "starts while another action of the same trampoline is open (nested on one thread / overlapping on two); (2) at most "
@@ -38,21 +42,28 @@ RULE = (
     "the end of an earlier action of that trampoline (single thread: always the case); (7) nothing lost: when the call "
     "that found a 'c'/'g' (or, with one thread, 't') trampoline idle returns, every action enqueued there so far whose "
     "disposable was never disposed has finished; for the shared 't' with two threads the same at the end of the run; "
-    "(8) no deadlock, no escaped exception. "
+    "(8) no deadlock, no escaped exception; (9) single thread: schedule_required() is False exactly while an action of that "
+    "trampoline is running (docstring); ensure_trampoline() called inside a running action of that trampoline runs its action "
+    "inline before returning, otherwise it behaves like schedule(); an exception raised by an action reaches the outermost "
+    "schedule call (repo tests), what was pending then is unconstrained, and afterwards the trampoline works again (the next "
+    "outermost call runs its action before returning, schedule_required() is True). "
     "Non-trivial: single thread = a schedule call made from inside a running action; two threads = a schedule call on the "
     "shared trampoline made while another thread is inside its draining call, or both threads' current-thread trampolines "
     "active in overlapping intervals. Distinct = distinct case JSON."
 )
 ASSUMPTIONS = [
-    "actions do not raise (an exception in an action clears the trampoline queue by design; not part of this property)",
+    "actions raise only in single-thread programs; what was pending when an action raised is not constrained (the library "
+    "drops it; undocumented either way); raising with two threads on a shared trampoline is not generated",
     "C-level atomicity of CPython (GIL build): a source line of reactivex code is the unit of interleaving",
-    "bounds: <=2 threads; trees of depth <=3; <=2 preemptions exhaustive, <=3 drawn",
+    "bounds: <=3 threads; trees of depth <=3; <=2 preemptions exhaustive, <=3 drawn",
     "a cancellation that races the drain loop between its is_cancelled() test and the invocation is 'best effort' (the "
     "docstrings say so) and is not constrained; only cancellations that certainly precede the test are",
     "a TrampolineScheduler instance may be shared between threads (its class docstring says so)",
 ]
 
-TIMEOUT = {"quick": 240, "thorough": 3600}  # runner: wall-clock cap per shard
+TIMEOUT = {"quick": 400, "thorough": 3600}  # runner: wall-clock cap per shard (quick needs ~20 s of CPU per shard)
+# absolute due times are aware datetimes: 'abs' in UTC, 'absw' the same instant expressed in the zone -05:30
+ABS_TZ = {"abs": timezone.utc, "absw": timezone(timedelta(hours=-5, minutes=-30))}
 ONS = ("c", "g", "t")
 KINDS = ("now", "rel", "reltd", "abs")
 
@@ -61,6 +72,10 @@ KINDS = ("now", "rel", "reltd", "abs")
 # program interpreter
 # ---------------------------------------------------------------------------------------------
 number, now_us = schedrun.number, schedrun.now_us
+
+
+class Boom(Exception):
+    """Raised by ['r'] inside an action."""
 
 
 class World:
@@ -88,7 +103,7 @@ class World:
     def _sched(self, on):
         return self.c if on == "c" else self.t if on == "t" else self._singleton()
 
-    def run_ops(self, ops, ids):
+    def run_ops(self, ops, ids, depth=0):
         for op, idn in zip(ops, ids):
             k = op[0]
             if k == "s":
@@ -96,23 +111,37 @@ class World:
                 _, on, kind, d, body = op
                 sch = self._sched(on)
 
-                def action(sc, state, sid=sid, body=body, kid_ids=kid_ids):
+                def action(sc, state, sid=sid, body=body, kid_ids=kid_ids, depth=depth):
                     self._ev("start", sid)
-                    self.run_ops(body, kid_ids)
+                    try:
+                        self.run_ops(body, kid_ids, depth + 1)
+                    except Boom:
+                        self._ev("abort", sid)
+                        raise
                     self._ev("end", sid)
 
                 self._ev("call", sid)
-                if kind == "now":
-                    dsp = sch.schedule(action)
-                elif kind == "rel":
-                    dsp = sch.schedule_relative(d / 1000.0, action)
-                elif kind == "reltd":
-                    dsp = sch.schedule_relative(timedelta(milliseconds=d), action)
-                elif kind == "abs":
-                    dsp = sch.schedule_absolute(det.EPOCH + timedelta(milliseconds=d), action)
-                else:
-                    raise HarnessError(f"bad kind {kind}")
-                self.disp[sid] = dsp
+                try:
+                    if kind == "now":
+                        dsp = sch.schedule(action)
+                    elif kind == "rel":
+                        dsp = sch.schedule_relative(d / 1000.0, action)
+                    elif kind == "reltd":
+                        dsp = sch.schedule_relative(timedelta(milliseconds=d), action)
+                    elif kind in ABS_TZ:
+                        dsp = sch.schedule_absolute((det.EPOCH + timedelta(milliseconds=d)).astimezone(ABS_TZ[kind]), action)
+                    elif kind == "ens":
+                        dsp = sch.ensure_trampoline(action)
+                    else:
+                        raise HarnessError(f"bad kind {kind}")
+                except Boom:
+                    if depth == 0:
+                        self._ev("exc", sid)  # the exception of an action reached the outermost schedule call
+                        continue
+                    self._ev("excn", sid)
+                    raise
+                if hasattr(dsp, "dispose"):
+                    self.disp[sid] = dsp
                 self._ev("ret", sid)
             elif k == "x":
                 if not self.meta:
@@ -126,6 +155,12 @@ class World:
                 self._ev("cr", target)
             elif k == "w":
                 det.CEvent().wait(op[1] / 1000.0)
+            elif k == "r":
+                if depth > 0:
+                    self._ev("raise", -1)
+                    raise Boom()
+            elif k == "q":
+                self._ev("q", (op[1], bool(self._sched(op[1]).schedule_required())))
             else:
                 raise HarnessError(f"bad op {op}")
 
@@ -159,6 +194,11 @@ def analyse(world, complete=True):
     outer = {}  # sid -> True if the call found its trampoline without a running action (per-thread groups)
     cancels = []  # (issue idx, return idx | None, target, clock at return)
     pending_cx = {}
+    inline_exp = {}  # ensure_trampoline call made while an action of that trampoline runs: must run inline
+    parent = {}  # inline action -> the action it interrupted
+    excused = set()  # pending when an action's exception left the outermost call: unconstrained afterwards
+    had_exc = False
+    in_flight = False  # an action raised and the exception has not reached the outermost call yet
     bad = None
 
     def fail(clause, detail):
@@ -171,7 +211,10 @@ def analyse(world, complete=True):
             on, k, d = meta[sid]
             call[sid], call_tid[sid], call_clk[sid] = i, tid, clk
             group[sid] = ("t",) if on == "t" else (on, tid)
-            due[sid] = d * 1000 if k == "abs" else clk + max(0, d) * 1000 if k in ("rel", "reltd") else clk
+            due[sid] = d * 1000 if k in ABS_TZ else clk + max(0, d) * 1000 if k in ("rel", "reltd") else clk
+            if k == "ens":
+                inline_exp[sid] = open_act.get(group[sid]) is not None
+                facts.add("ensure-inline" if inline_exp[sid] else "ensure-scheduled")
             if on == "t":
                 open_tcalls[tid] = open_tcalls.get(tid, 0) + 1
                 if any(v > 0 for t2, v in open_tcalls.items() if t2 != tid):
@@ -181,20 +224,36 @@ def analyse(world, complete=True):
                 facts.add("nested-sched")
             if on != "t" or T == 1:
                 outer[sid] = open_act.get(g) is None
+                if outer[sid] and had_exc:
+                    facts.add("outermost-call-after-raise")
             if on != "t" and any(a is not None and gg[0] != "t" and gg != g and gg[1] != tid for gg, a in open_act.items()):
                 facts.add("both-current-thread-active")
             if due[sid] > clk:
                 facts.add("timed")
-            if k == "abs" and due[sid] < clk:
+            if k in ABS_TZ and due[sid] < clk:
                 facts.add("past-abs")
-        elif kind == "ret":
-            ret[sid] = i
+            if k == "absw":
+                facts.add("abs-non-utc-zone")
+        elif kind in ("ret", "exc", "excn"):
             if meta[sid][0] == "t":
                 open_tcalls[call_tid[sid]] -= 1
+            if kind == "exc":
+                in_flight = False
+                had_exc = True
+                facts.add("raise-propagated")
+                excused.update(y for y in range(n) if call[y] is not None and start[y] is None)
+                continue
+            if kind == "excn":
+                continue
+            ret[sid] = i
+            if inline_exp.get(sid) and end[sid] is None:
+                fail("ensure-not-inline", f"ensure_trampoline call #{sid} {meta[sid]} was made while action #{open_act.get(group[sid])} of that trampoline was running and returned without having run its action inline")
+            if outer.get(sid) and in_flight:
+                fail("exception-swallowed", f"an action raised inside the outermost schedule call #{sid} {meta[sid]}, which returned normally")
             if outer.get(sid):
                 g = group[sid]
                 for y in range(n):
-                    if group[y] == g and call[y] is not None and call[y] < i and end[y] is None:
+                    if group[y] == g and call[y] is not None and call[y] < i and end[y] is None and y not in excused:
                         if not any(tg == y and ci < i for ci, _, tg, _ in cancels) and not any(k[0] == y for k in pending_cx):
                             fail("lost", f"action #{y} {meta[y]} was enqueued before the outermost call #{sid} returned, was never cancelled, and has not run")
         elif kind == "start":
@@ -202,7 +261,11 @@ def analyse(world, complete=True):
             if start[sid] is not None:
                 fail("ran-twice", f"action #{sid} {meta[sid]} started twice")
             cur = open_act.get(g)
-            if cur is not None:
+            if inline_exp.get(sid):
+                if ret[sid] is not None or tid != call_tid[sid]:
+                    fail("ensure-not-inline", f"action #{sid} {meta[sid]} of an ensure_trampoline call made inside a running action started after that call returned / on another thread")
+                parent[sid] = cur
+            elif cur is not None:
                 same = rec[start[cur]][2] == tid
                 fail("nested" if same else "overlap", f"action #{sid} started on thread {tid} while action #{cur} of the same trampoline was still running on thread {rec[start[cur]][2]}")
             open_act[g] = sid
@@ -218,12 +281,20 @@ def analyse(world, complete=True):
                 fail("early", f"action #{sid} {meta[sid]} due at {due[sid]}us started at {clk}us")
             if due[sid] > call_clk[sid]:
                 facts.add("timed-ran")
-        elif kind == "end":
+        elif kind in ("end", "abort"):
             g = group[sid]
             if open_act.get(g) == sid:
-                open_act[g] = None
+                open_act[g] = parent.get(sid)
             end[sid] = i
             ends_by_group.setdefault(g, []).append(i)
+        elif kind == "raise":
+            in_flight = True
+        elif kind == "q":
+            on, result = sid
+            busy = open_act.get(("t",) if on == "t" else (on, tid)) is not None
+            facts.add("required-asked-busy" if busy else "required-asked-idle")
+            if result == busy:
+                fail("schedule-required", f"schedule_required() returned {result} on thread {tid} while {'an' if busy else 'no'} action of that trampoline was running (event {i})")
         elif kind == "cx":
             pending_cx[(sid, tid)] = i
         elif kind == "cr":
@@ -246,7 +317,7 @@ def analyse(world, complete=True):
         facts.add("cancel-raced")
 
     # (5) order
-    started = [s for s in range(n) if start[s] is not None]
+    started = [s for s in range(n) if start[s] is not None and not inline_exp.get(s)]
     for x in started:
         for y in started:
             if x == y or group[x] != group[y] or not start[x] < start[y]:
@@ -317,16 +388,17 @@ def _judge(case, w, res):
 
 
 def _facts(case, w, res):
-    return analyse(w, res.complete)[1]
+    return analyse(w, res.complete)[1] | {f"threads:{len(case['threads'])}"}
 
 
 _NT2 = {"cross-while-draining", "both-current-thread-active"}
 
 
+
 def run_det(case):
-    uses_g = any(m[0] == "g" for m in number(case["threads"])[1])
-    # pooled OS threads keep thread-locals (the singleton's trampoline) across runs: fresh threads for 'g'
-    kw = dict(max_steps=6000, reuse_threads=not uses_g)
+    # pooled OS threads are fine for every flavour: det.run_program resets reactivex's thread-keyed state (the
+    # singleton's per-thread trampoline, the per-class singleton maps) at the start of each run with reuse_threads=True
+    kw = dict(max_steps=6000, reuse_threads=True)
     return schedrun.drive(case, build, _judge, _facts, _NT2, kw, sig_suffix="|" + _kinds(case))
 
 
@@ -376,7 +448,7 @@ def _insert(ops, path, idx, new):
 
 def _tree_enum(tier):
     nmax = 3 if tier == "quick" else 4
-    alpha = [("now", 0), ("rel", 2), ("abs", 1)] if tier == "quick" else [("now", 0), ("reltd", 2), ("abs", 1), ("rel", 0)]
+    alpha = [("now", 0), ("rel", 2), ("absw", 1)] if tier == "quick" else [("now", 0), ("reltd", 2), ("absw", 1), ("rel", 0)]
     for on in ONS:
         for n in range(1, nmax + 1):
             for forest in _forests(n):
@@ -390,22 +462,50 @@ def _tree_enum(tier):
                             yield {"threads": [_insert(ops, path, idx, ["w", 3])]}
 
 
+def _tree_enum2(tier):
+    """Second enumerated family: ensure_trampoline labels, a raise / schedule_required() / cancel at every position."""
+    nmax = 3 if tier == "quick" else 4
+    for on in ONS:
+        for n in range(1, nmax + 1):
+            alpha = [("now", 0), ("ens", 0), ("rel", 2)] if n < nmax else [("now", 0), ("ens", 0)]
+            for forest in _forests(n):
+                for labels in itertools.product(alpha, repeat=n):
+                    ops = _label(forest, labels, on)
+                    if any(k == "ens" for k, _ in labels):
+                        yield {"threads": [ops]}
+                    for path, idx in _positions(ops):
+                        yield {"threads": [_insert(ops, path, idx, ["q", on])]}
+                        if path:
+                            yield {"threads": [_insert(ops, path, idx, ["r"])]}
+                            yield {"threads": [_insert(_insert(ops, path, idx, ["r"]), (), len(ops), ["q", on])]}
+
+
+def _tree_enum_all(tier):
+    yield from _tree_enum(tier)
+    yield from _tree_enum2(tier)
+
+
 _KD = [["now", 0], ["now", 0], ["now", 0], ["rel", 0], ["rel", -1], ["rel", 1], ["reltd", 2], ["rel", 5], ["reltd", 0],
-       ["abs", 0], ["abs", 1], ["abs", 3], ["abs", 6], ["abs", -2]]  # fmt: skip
+       ["abs", 0], ["absw", 1], ["abs", 3], ["absw", 6], ["abs", -2]]  # fmt: skip
 
 
-def _ops(depth, ons, width, kd=_KD):
-    other = st.one_of(st.tuples(st.just("x"), st.integers(0, 11)).map(list), st.tuples(st.just("w"), st.sampled_from([1, 2, 3])).map(list))
+def _ops(depth, ons, width, kd=_KD, extras=False):
+    other = [st.tuples(st.just("x"), st.integers(0, 11)).map(list), st.tuples(st.just("w"), st.sampled_from([1, 2, 3])).map(list)]
+    if extras:  # single-thread only: raise inside an action, schedule_required(), ensure_trampoline()
+        other += [st.sampled_from([["r"], ["w", 1], ["w", 2]]), st.tuples(st.just("q"), st.sampled_from(ons)).map(list)]
+        kd = kd + [["ens", 0], ["ens", 0]]
     if depth == 0:
         body = st.just([])
     else:
-        body = _ops(depth - 1, ons, max(1, width - 1), kd)
+        body = _ops(depth - 1, ons, max(1, width - 1), kd[: len(kd) - 2] if extras else kd, extras)
     s_op = st.builds(lambda on, k, b: ["s", on, k[0], k[1], b], st.sampled_from(ons), st.sampled_from(kd), body)
-    return st.lists(st.one_of(s_op, s_op, s_op, other), min_size=0 if depth < 2 else 1, max_size=width)
+    # (st.one_of de-duplicates repeated strategies: weight through an index) 60% schedule operations
+    one = st.integers(0, 9).flatmap(lambda i: s_op if i < 6 else other[i % len(other)])
+    return st.lists(one, min_size=0 if depth < 2 else 1, max_size=width)
 
 
 _has_s = lambda o: any(x[0] == "s" for x in o)  # noqa: E731
-_tree = st.sampled_from([["c"], ["g"], ["t"], ["c", "g", "t"], ["c", "t"]]).flatmap(lambda ons: st.builds(lambda ops: {"threads": [ops]}, _ops(3, ons, 4).filter(_has_s)))
+_tree = st.sampled_from([["c"], ["g"], ["t"], ["c", "g", "t"], ["c", "t"]]).flatmap(lambda ons: st.builds(lambda ops: {"threads": [ops]}, _ops(3, ons, 4, extras=True).filter(_has_s)))
 
 
 def _S(on, kind="now", d=0, body=()):
@@ -426,29 +526,51 @@ def _det_programs():
     yield [[_S("c", body=[_S("c")]), ["x", 3]], [_S("c", body=[_S("c", "rel", 1)]), ["x", 1]]]
 
 
+def _det_programs3():
+    """Three threads (beyond the property's two-thread quantifier, same oracle)."""
+    t = "t"
+    yield [[_S(t)], [_S(t)], [_S(t)]], 2
+    yield [[_S(t, body=[_S(t)])], [_S(t, "rel", 1)], [_S(t), ["x", 0]]], 2
+    yield [[_S("c", body=[_S("c")])], [_S("c", body=[_S(t)])], [_S("g", body=[_S(t)]), _S("g")]], 1
+
+
+def _det_programs_thorough():
+    t = "t"
+    yield [[_S(t), _S(t)], [_S(t), _S(t)]]
+    yield [[_S(t, "rel", 1, body=[_S(t, "abs", 3)])], [["w", 1], _S(t), ["x", 1]]]
+    yield [[_S("g", body=[_S(t), ["x", 1]])], [_S(t, body=[_S("g")]), ["x", 0]]]
+    yield [[_S("c", "rel", 1), _S("c")], [_S("c"), _S("c", "abs", 1, body=[_S("c")])]]
+
+
 def _det_enum(tier):
     K = 1 if tier == "quick" else 2
     for threads in _det_programs():
         yield {"threads": threads, "sched": {"mode": "all", "K": K}}
+    for threads, kmax in _det_programs3():
+        yield {"threads": threads, "sched": {"mode": "all", "K": min(K, kmax)}}
+    if tier != "quick":
+        for threads in _det_programs_thorough():
+            yield {"threads": threads, "sched": {"mode": "all", "K": 2}}
 
 
-_KD2 = [["now", 0], ["now", 0], ["now", 0], ["rel", 0], ["rel", 1], ["reltd", 2], ["abs", 0], ["abs", 2], ["abs", -1]]
+_KD2 = [["now", 0], ["now", 0], ["now", 0], ["rel", 0], ["rel", 1], ["reltd", 2], ["abs", 0], ["absw", 2], ["abs", -1]]
 # 'g' (the per-thread singleton) needs fresh OS threads for every run (20-40x slower on a loaded machine): keep its share small
 _DET_ONS = [["t"]] * 5 + [["c"]] * 3 + [["c", "t"]] * 6 + [["g"], ["c", "g", "t"]]
 _det_gen = st.sampled_from(_DET_ONS).flatmap(
     lambda ons: st.builds(
-        lambda a, b, s: {"threads": [a, b], "sched": s},
+        lambda a, b, c, s: {"threads": [a, b] + ([c] if c else []), "sched": s},
         _ops(2, ons, 3, _KD2).filter(_has_s),
         _ops(2, ons, 3, _KD2).filter(_has_s),
-        schedrun.sched_strategy(3, max_tid=2),
+        st.integers(0, 4).flatmap(lambda i: _ops(1, ons, 2, _KD2) if i == 0 else st.just(None)),  # a third thread in ~20%
+        schedrun.sched_strategy(3, max_tid=3),
     )
 )
 
 
 def checks(tier):
     return [
-        Check("tree-enum", run_tree, cases=_tree_enum, shards={"quick": 8, "thorough": 16}, exhaustive=True),
-        Check("tree", run_tree, strategy=_tree, examples={"quick": 3000, "thorough": 16 * 25000}, shards={"quick": 8, "thorough": 16}),
+        Check("tree-enum", run_tree, cases=_tree_enum_all, shards={"quick": 8, "thorough": 16}, exhaustive=True),
+        Check("tree", run_tree, strategy=_tree, examples={"quick": 2000, "thorough": 16 * 25000}, shards={"quick": 8, "thorough": 16}),
         Check("det-enum", run_det, cases=_det_enum, shards={"quick": 8, "thorough": 16}, exhaustive=True),
-        Check("det-gen", run_det, strategy=_det_gen, examples={"quick": 3200, "thorough": 16 * 10000}, shards={"quick": 8, "thorough": 16}),
+        Check("det-gen", run_det, strategy=_det_gen, examples={"quick": 2400, "thorough": 16 * 10000}, shards={"quick": 8, "thorough": 16}),
     ]
